@@ -256,6 +256,40 @@ fn vec_io<M: Machine>(cx: &mut Cx, m: M) {
             }
         }};
     }
+    // wrong-length slices: a panic is fine, an access outside the slice is not
+    macro_rules! w {
+        ($ty:ty, $n:expr, $name:expr) => {{
+            let v: $ty = m.read_le(&input_pattern($n));
+            for len in [$n - 1, $n + 1, 0usize, $n / 2] {
+                for pl in [Place::End, Place::Start] {
+                    let init = input_pattern(len);
+                    for (op, writes) in [("read_le", false), ("read_be", false), ("write_le", true), ("write_be", true)] {
+                        let off = pl.offset(len);
+                        cx.arena.fill();
+                        cx.arena.data()[off..off + len].copy_from_slice(&init);
+                        cx.prog.set(&format!("{}::{}(wrong length {})|{}|{}|{}|{}", $name, op, len, cx.backend, pl.name(), 0, len));
+                        cx.rep.evaluations += 1;
+                        let slice = &mut cx.arena.data()[off..off + len];
+                        let _ = guarded(|| match op {
+                            "read_le" => { let x: $ty = m.read_le(slice); std::hint::black_box(x); }
+                            "read_be" => { let x: $ty = m.read_be(slice); std::hint::black_box(x); }
+                            "write_le" => v.write_le(slice),
+                            _ => v.write_be(slice),
+                        });
+                        if !cx.arena.outside_intact(off, len) {
+                            cx.rep.violation(&format!("c16:{}::{}:{}:wrong-length-stray-write", $name, op, cx.backend), format!("{}::{} on a {}-byte slice (the type has {} bytes) changed bytes outside the slice", $name, op, len, $n), json!({"api": format!("{}::{}", $name, op), "backend": cx.backend, "len": len}));
+                        }
+                        let _ = writes;
+                    }
+                }
+            }
+        }};
+    }
+    w!(M::u32x4, 16, "u32x4");
+    w!(M::u32x4x2, 32, "u32x4x2");
+    w!(M::u64x2x2, 32, "u64x2x2");
+    w!(M::u64x4, 32, "u64x4");
+    w!(M::u32x4x4, 64, "u32x4x4");
     t!(M::u32x4, 16, "u32x4");
     t!(M::u32x4x2, 32, "u32x4x2");
     t!(M::u64x2x2, 32, "u64x2x2");
@@ -315,7 +349,7 @@ pub fn child(family: &str, progress: &str, out: &str) {
 
 pub fn run(tier: &str, config: &str) -> Report {
     let mut rep = Report::new("C16", tier, config);
-    rep.rule = "every byte-slice API (apply_keystream x7, Digest::update x15 incl. a two-piece feed, digest written into a slice x15, Threefish encrypt_block/decrypt_block/key x3, jh Compressor::input, Machine::read_le/read_be and write_le/write_be for every StoreBytes vector type x every directly instantiated backend) x placements {slice ends at the last mapped byte before a PROT_NONE page, slice starts at the first mapped byte after a PROT_NONE page, interior at every alignment 0..63} x lengths {0..=130, 191..193, 255..257, 319..321, 511..513, 1031} (variable-length APIs; with the end-abutting placement this gives every start alignment) x forced backend (hook H1) for the dispatching families; oracle: result equals the run on an ordinary heap buffer, bytes outside the slice unchanged, inputs unmodified, process survives (each family in its own subprocess; a signal is reported with the call in flight)".into();
+    rep.rule = "every byte-slice API (apply_keystream x7, Digest::update x15 incl. a two-piece feed, digest written into a slice x15, Threefish encrypt_block/decrypt_block/key x3, jh Compressor::input, Machine::read_le/read_be and write_le/write_be for every StoreBytes vector type x every directly instantiated backend, also with slices of the WRONG length n-1, n+1, 0, n/2 abutting the guard pages, where a panic is accepted and an access outside the slice is not) x placements {slice ends at the last mapped byte before a PROT_NONE page, slice starts at the first mapped byte after a PROT_NONE page, interior at every alignment 0..63} x lengths {0..=130, 191..193, 255..257, 319..321, 511..513, 1031} (variable-length APIs; with the end-abutting placement this gives every start alignment) x forced backend (hook H1) for the dispatching families; oracle: result equals the run on an ordinary heap buffer, bytes outside the slice unchanged, inputs unmodified, process survives (each family in its own subprocess; a signal is reported with the call in flight)".into();
     let exe = std::env::current_exe().unwrap();
     let dir = std::env::temp_dir().join(format!("vh-c16-{}-{}", std::process::id(), config));
     std::fs::create_dir_all(&dir).unwrap();
